@@ -226,6 +226,12 @@ class Gen:
         nid = self._session_node()
         rng = self.rng
         words = (rng.choice([0, 1, 10]), rng.choice([0, 1, 2]), rng.choice([0, 8, 64]), rng.randrange(65536), 0x0102)
+        target = self.model.ota.target.get(nid)
+        if target is not None and target in self.model.ota.firmware and rng.random() < 0.35:
+            # the node reports exactly the firmware it is scheduled for (a re-flash of the same image, or
+            # the same version with another CRC): the config response is due all the same
+            blocks, crc = self.model.ota.advertised(target)[:2]
+            words = (target[0], target[1], blocks, crc if rng.random() < 0.7 else (crc + 1) & 0xFFFF, 0x0102)
         self.emit_line(f"{nid};255;4;{rng.choice([0, 0, 1])};0;{le16(*words).upper() if rng.random() < 0.3 else le16(*words)}")
 
     def g_stream_blk(self):
